@@ -446,12 +446,10 @@ class WrapperMixin(object):
             output.append(self.doxygen_cont + " \\brief %s" % docs["brief"])
             output.append(self.doxygen_cont)
         if "description" in docs:
-            desc = docs["description"]
-            if desc.endswith("\n"):
-                lines = docs["description"].split("\n")
+            # Every line of the description is a comment line.
+            lines = docs["description"].split("\n")
+            if lines[-1] == "":
                 lines.pop()  # remove trailing newline
-            else:
-                lines = [desc]
             for line in lines:
                 output.append(self.doxygen_cont + " " + line)
         if "return" in docs:
